@@ -25,7 +25,7 @@ func TestC19ForeignConvOOB(t *testing.T) {
 		cipher := rapid.SampledFrom([]string{"null", "aes-128", "salsa20", "aes-128-gcm", "none", "xor"}).Draw(rt, "cipher")
 		key := rapid.SliceOfN(rapid.Byte(), wire.KeyLen(cipher), wire.KeyLen(cipher)).Draw(rt, "key")
 		fec := [2]int{rapid.IntRange(1, 4).Draw(rt, "d"), rapid.IntRange(1, 2).Draw(rt, "p")}
-		convA := rapid.Uint32Range(1, 1<<30).Draw(rt, "convA")
+		convA := rapid.OneOf(rapid.SampledFrom([]uint32{0, 1, 0xffffffff}), rapid.Uint32()).Draw(rt, "convA") // any 32-bit value is a legal id
 		convB := convA ^ (1 << uint(rapid.IntRange(0, 31).Draw(rt, "convBit")))
 		n := rapid.IntRange(0, 60).Draw(rt, "len")
 		crossDelivered := ""
